@@ -1080,6 +1080,9 @@ class Compress:
             out.append(Q([p], z3.Implies(z3.And(p >= 0, p < cnt), z3.And(sel(p) >= 0, sel(p) < n, m(sel(p)), rank(sel(p)) == p)), [sel(p)]))
             out.append(Q([p, q], z3.Implies(z3.And(p >= 0, p < q, q < cnt), sel(p) < sel(q)), [z3.MultiPattern(sel(p), sel(q))]))
             out.append(Q([k], z3.Implies(z3.And(k >= 0, k < n, m(k)), z3.And(rank(k) >= 0, rank(k) < cnt, sel(rank(k)) == k)), [rank(k)]))
+            # a mask that selects everything selects in place (A2; prefix lemma of the selection functions)
+            out.append(Q([], z3.Implies(z3.ForAll([k], z3.Implies(z3.And(k >= 0, k < n), m(k))),
+                                        z3.And(cnt == n, z3.ForAll([p], z3.Implies(z3.And(p >= 0, p < n), sel(p) == p), patterns=[sel(p)]))), []))
             if not np_:
                 out.append(z3.Implies(cnt == 0, z3.ForAll([k], z3.Implies(z3.And(k >= 0, k < n), z3.Not(m(k))))))
                 out.append(z3.Implies(cnt == n, z3.ForAll([k], z3.Implies(z3.And(k >= 0, k < n), sel(k) == k), patterns=[sel(k)])))
